@@ -50,7 +50,7 @@ def main():
         for name in sorted(os.listdir(pdir)):
             d = os.path.join(pdir, name)
             patch = os.path.join(d, "patch.diff")
-            if not os.path.exists(patch):
+            if not os.path.exists(patch) or (os.environ.get("NAMES") and name not in os.environ["NAMES"].split(",")):
                 continue
             files = re.findall(r"^\+\+\+ b/(\S+)", open(patch).read(), re.M)
             visible = [f for f in files if not f.startswith("cirq-core/")]
